@@ -62,7 +62,8 @@ def gen_pda(rng, max_states=3, max_stack=3, max_trans=6, reserved=True):
         mode = "plain"       # a real name collision needs the same value type as the library's fresh names
     names = ["S:" + s for s in states] + ["G:" + g for g in stack]
     return {"states": states, "stack": stack, "inputs": inputs, "trans": trans, "start": states[0],
-            "z0": stack[0], "finals": finals, "hash": assign_hashes(rng, sorted(names), mode), "hashmode": mode}
+            "z0": stack[0], "finals": finals, "hash": assign_hashes(rng, sorted(names), mode), "hashmode": mode,
+            "ctor_tf": rng.chance(0.15)}
 
 
 def sv(case, s):
@@ -83,6 +84,19 @@ def ref_of(case):
 
 def build(case):
     from pyformlang.pda import PDA
+    if case.get("ctor_tf"):
+        # a ready-made transition function filled with its own State / Symbol / StackSymbol objects (equal to, but
+        # not the same objects as, the members of the declared sets)
+        from pyformlang.pda import State, Symbol, StackSymbol, Epsilon
+        from pyformlang.pda.transition_function import TransitionFunction
+        tf = TransitionFunction()
+        for q, a, X, r, g in case["trans"]:
+            tf.add_transition(State(sv(case, q)), Epsilon() if a is None else Symbol(a), StackSymbol(gv(case, X)),
+                              State(sv(case, r)), [StackSymbol(gv(case, y)) for y in g])
+        return PDA(states={sv(case, s) for s in case["states"]}, input_symbols=set(case["inputs"]),
+                   stack_alphabet={gv(case, g) for g in case["stack"]}, transition_function=tf,
+                   start_state=sv(case, case["start"]), start_stack_symbol=gv(case, case["z0"]),
+                   final_states={sv(case, s) for s in case["finals"]})
     pda = PDA(start_state=sv(case, case["start"]), start_stack_symbol=gv(case, case["z0"]),
               final_states={sv(case, s) for s in case["finals"]}, states={sv(case, s) for s in case["states"]})
     for q, a, X, r, g in case["trans"]:
@@ -166,6 +180,8 @@ def shrink_pda(case):
     used_g = {case["z0"]} | {t[2] for t in tr} | {y for t in tr for y in t[4]}
     if set(case["states"]) - used_s or set(case["stack"]) - used_g:
         yield mk(states=[s for s in case["states"] if s in used_s], stack=[g for g in case["stack"] if g in used_g])
+    if case.get("ctor_tf"):
+        yield mk(ctor_tf=False)
     if case.get("hash"):
         ident = {n: i for i, n in enumerate(sorted(case["hash"]))}
         if ident != case["hash"]:
